@@ -217,6 +217,9 @@ var kFastqWrite = register(&Kind{Name: "fastq_write",
 		carved0 := slices.Clone(carved)
 		f := &fastq.Fastq{Name: carved[:len(n0)], Sequence: carved[len(n0) : len(n0)+len(s0)], Quals: carved[len(n0)+len(s0) : len(n0)+len(s0)+len(q0)]}
 		orig := fqRecVal(f.Name, f.Sequence, f.Quals).String()
+		poisonWriters(func(w io.Writer) error {
+			return (&fastq.Fastq{Name: []byte("poison"), Sequence: []byte("NNNN"), Quals: []byte("!!!!")}).Write(w)
+		})
 		w := &fqChunkRecorder{}
 		if err := f.Write(w); err != nil {
 			return L(I(3), S("Write to a writer that never fails returned an error"))
